@@ -7,6 +7,8 @@ import JSV.Proofs.Refine
 import JSV.Proofs.RefineMono
 import JSV.Proofs.RefineSpecMono
 import JSV.Proofs.RefineCheck
+import JSV.Proofs.Defined
+import JSV.Proofs.DefinedGuarded
 namespace JSV.C01
 open JSV Go GoVal Refine
 
@@ -125,6 +127,132 @@ theorem unsupported_schema (env : VEnv) (supported : List String) (fuel : Nat) (
     Go.validate env supported fuel root inst = .err := by
   unfold Go.validate; rw [hroot]; simp only [hsup, Bool.not_false, if_true]
 
+/-! ## definedness: no hang on guarded schemas
+
+The proviso of the property ("schema recursion passes through an instance-descending keyword") as a decidable
+certificate: `Go.ranked env` — the executable function `Go.rankOf env` strictly decreases along every in-place edge
+(`$ref`, `$dynamicRef` and every schema it can designate dynamically, `allOf`, `anyOf`, `oneOf`, `not`, `if`/`then`/`else`,
+`dependentSchemas` / schema-form `dependencies`).  `Go.closed env`: every `$ref` / `$dynamicRef` has a recorded
+target and every subschema a keyword applies is a node of the store (what `Resolve` leaves behind).
+Under these two, the Spec — hence the evaluator — DECIDES, with fuel linear in the nesting depth of the instance. -/
+
+/-- what `ranked` says -/
+theorem ranked_iff (env : VEnv) :
+    ranked env = true ↔ ∀ s, s < env.st.size → ∀ t, t ∈ inPlaceEdges env s → rankOf env t < rankOf env s := by
+  constructor
+  · intro h s hs t ht
+    exact Refine.ranked_spec env h s t hs ht
+  · intro h
+    unfold ranked rankedBy
+    apply List.all_eq_true.2
+    intro s hs
+    apply List.all_eq_true.2
+    intro t ht
+    exact decide_eq_true (h s (List.mem_range.1 hs) t ht)
+
+/-- a rank certificate excludes in-place cycles: `ranked` is at least as strict as the cycle search `guarded` -/
+theorem ranked_guarded (env : VEnv) (hr : ranked env = true) : guarded env = true :=
+  Refine.ranked_guarded env hr
+
+/-- … and it is a COMPLETE certificate: when the edge targets are nodes of the store (`closed`), the cycle search finds no
+    in-place cycle iff the rank table decreases along every edge.  (⇐ above; ⇒: the search with `size + 1` rounds is
+    exhaustive, and without cycles `size + 1` rounds of longest-path relaxation reach a fixed point.) -/
+theorem guarded_iff_ranked (env : VEnv) (hc : closed env = true) : guarded env = true ↔ ranked env = true :=
+  ⟨Refine.guarded_ranked env hc, Refine.ranked_guarded env⟩
+
+/-- the ranks are bounded by the size of the store -/
+theorem maxRank_le_size (env : VEnv) : maxRank env ≤ env.st.size + 1 := Refine.maxRank_le_size env
+
+/-- **Definedness of the Spec** (both drafts, every scope): for a ranked, closed environment, every schema `s` of the
+    store and EVERY instance `j`, the Spec decides with fuel `depth j * (maxRank env + 1) + rankOf env s + 1`.
+    (Lexicographic induction on (depth of the instance, rank of the schema): an in-place application keeps the instance
+    and lowers the rank, an application to an item / member value / property name lowers the depth.) -/
+theorem spec_defined_sharp (env : VEnv) (hr : ranked env = true) (hc : closed env = true)
+    (fuel : Nat) (scope : List NodeId) (s : NodeId) (j : Json) (hs : s < env.st.size)
+    (hf : Json.depth j * (maxRank env + 1) + rankOf env s + 1 ≤ fuel) :
+    (Spec.evalFuel (specEnvOf env) fuel scope s j).isSome = true :=
+  Refine.evalFuel_isSome env hr hc fuel scope s j hs hf
+
+/-- … with a bound that does not mention the schema -/
+theorem spec_defined (env : VEnv) (hr : ranked env = true) (hc : closed env = true)
+    (fuel : Nat) (scope : List NodeId) (s : NodeId) (j : Json) (hs : s < env.st.size)
+    (hf : (Json.depth j + 1) * (maxRank env + 1) ≤ fuel) :
+    (Spec.evalFuel (specEnvOf env) fuel scope s j).isSome = true :=
+  Refine.evalFuel_isSome_uniform env hr hc fuel scope s j hs hf
+
+/-- … and with one that does not mention the rank table: `(depth j + 1) * (number of schemas + 2)` -/
+theorem spec_defined_size (env : VEnv) (hr : ranked env = true) (hc : closed env = true)
+    (fuel : Nat) (scope : List NodeId) (s : NodeId) (j : Json) (hs : s < env.st.size)
+    (hf : (Json.depth j + 1) * (env.st.size + 2) ≤ fuel) :
+    (Spec.evalFuel (specEnvOf env) fuel scope s j).isSome = true :=
+  Refine.evalFuel_isSome_size env hr hc fuel scope s j hs hf
+
+/-- the validity verdict exists -/
+theorem valid_defined (env : VEnv) (hr : ranked env = true) (hc : closed env = true)
+    (fuel : Nat) (root : NodeId) (j : Json) (hs : root < env.st.size)
+    (hf : (Json.depth j + 1) * (maxRank env + 1) ≤ fuel) :
+    ∃ b, Spec.valid (specEnvOf env) fuel root j = some b := by
+  have h := spec_defined env hr hc fuel [] root j hs hf
+  unfold Spec.valid
+  cases he : Spec.evalFuel (specEnvOf env) fuel [] root j with
+  | none => rw [he] at h; cases h
+  | some r => exact ⟨r.isSome, rfl⟩
+
+/-- **C01 on guarded schemas**, no definedness hypothesis left: with fuel `(depth j + 1) * (maxRank env + 1)`,
+    `Validate` returns nil iff the Spec says valid and an error iff the Spec says invalid (and one of the two happens). -/
+theorem C01_main_guarded (env : VEnv) (hwf : EnvWF env) (hst : StoreWF env.st)
+    (hr : ranked env = true) (hc : closed env = true) (fuel : Nat) (root : NodeId) (j : Json)
+    (hj : Json.WF j = true) (supported : List String) (rn : Node) (hroot : env.st.get? root = some rn)
+    (hsup : supported.contains rn.schema = true) (hf : (Json.depth j + 1) * (maxRank env + 1) ≤ fuel) :
+    (Go.validate env supported fuel root (GoVal.ofJson j) = .ok () ↔ Spec.valid (specEnvOf env) fuel root j = some true) ∧
+    (Go.validate env supported fuel root (GoVal.ofJson j) = .err ↔ Spec.valid (specEnvOf env) fuel root j = some false) ∧
+    (Go.validate env supported fuel root (GoVal.ofJson j) = .ok () ∨
+      Go.validate env supported fuel root (GoVal.ofJson j) = .err) := by
+  have hs : root < env.st.size := (Array.getElem?_eq_some_iff.1 hroot).1
+  obtain ⟨b, hb⟩ := valid_defined env hr hc fuel root j hs hf
+  have hm := C01_main env hwf hst fuel root j hj b hb supported rn hroot hsup
+  rw [hm, hb]
+  cases b with
+  | true =>
+    refine ⟨⟨fun _ => rfl, fun _ => rfl⟩, ⟨fun h => ?_, fun h => ?_⟩, Or.inl rfl⟩
+    · cases h
+    · cases h
+  | false =>
+    refine ⟨⟨fun h => ?_, fun h => ?_⟩, ⟨fun _ => rfl, fun _ => rfl⟩, Or.inr rfl⟩
+    · cases h
+    · cases h
+
+/-- the same with the cycle search `guarded` as the hypothesis (the prefilter of the correspondence runs) -/
+theorem C01_main_of_guarded (env : VEnv) (hwf : EnvWF env) (hst : StoreWF env.st)
+    (hg : guarded env = true) (hc : closed env = true) (fuel : Nat) (root : NodeId) (j : Json)
+    (hj : Json.WF j = true) (supported : List String) (rn : Node) (hroot : env.st.get? root = some rn)
+    (hsup : supported.contains rn.schema = true) (hf : (Json.depth j + 1) * (maxRank env + 1) ≤ fuel) :
+    (Go.validate env supported fuel root (GoVal.ofJson j) = .ok () ↔ Spec.valid (specEnvOf env) fuel root j = some true) ∧
+    (Go.validate env supported fuel root (GoVal.ofJson j) = .err ↔ Spec.valid (specEnvOf env) fuel root j = some false) ∧
+    (Go.validate env supported fuel root (GoVal.ofJson j) = .ok () ∨
+      Go.validate env supported fuel root (GoVal.ofJson j) = .err) :=
+  C01_main_guarded env hwf hst ((guarded_iff_ranked env hc).1 hg) hc fuel root j hj supported rn hroot hsup hf
+
+/-- the same against the fuel-free reading of the Spec ("valid with SOME fuel"): the fuel of the Spec side is
+    immaterial once the evaluator has `(depth j + 1) * (maxRank env + 1)` -/
+theorem C01_main_guarded_any_fuel (env : VEnv) (hwf : EnvWF env) (hst : StoreWF env.st)
+    (hr : ranked env = true) (hc : closed env = true) (fuel : Nat) (root : NodeId) (j : Json)
+    (hj : Json.WF j = true) (supported : List String) (rn : Node) (hroot : env.st.get? root = some rn)
+    (hsup : supported.contains rn.schema = true) (hf : (Json.depth j + 1) * (maxRank env + 1) ≤ fuel) :
+    (Go.validate env supported fuel root (GoVal.ofJson j) = .ok () ↔ ∃ n, Spec.valid (specEnvOf env) n root j = some true) ∧
+    (Go.validate env supported fuel root (GoVal.ofJson j) = .err ↔ ∃ n, Spec.valid (specEnvOf env) n root j = some false) := by
+  obtain ⟨h1, h2, _⟩ := C01_main_guarded env hwf hst hr hc fuel root j hj supported rn hroot hsup hf
+  have hs : root < env.st.size := (Array.getElem?_eq_some_iff.1 hroot).1
+  have key : ∀ b n, Spec.valid (specEnvOf env) n root j = some b → Spec.valid (specEnvOf env) fuel root j = some b := by
+    intro b n hn
+    obtain ⟨b', hb'⟩ := valid_defined env hr hc fuel root j hs hf
+    have e1 := valid_stable _ root j n b hn (max n fuel) (Nat.le_max_left _ _)
+    have e2 := valid_stable _ root j fuel b' hb' (max n fuel) (Nat.le_max_right _ _)
+    rw [e1] at e2
+    rw [hb', ← Option.some.inj e2]
+  exact ⟨⟨fun h => ⟨fuel, h1.1 h⟩, fun ⟨n, hn⟩ => h1.2 (key true n hn)⟩,
+    ⟨fun h => ⟨fuel, h2.1 h⟩, fun ⟨n, hn⟩ => h2.2 (key false n hn)⟩⟩
+
 /-! ## The hypotheses are satisfiable on a non-trivial environment
 
 `{"allOf":[{"properties":{"a":{}}}],"unevaluatedProperties":false}` as a five-node store
@@ -191,5 +319,87 @@ example : (Go.validateFuel cexEnv 2 [7] (GoVal.ofJson .null) 0).verdict = none :
 example : (Go.validateFuel cexEnv 2 [7] (GoVal.ofJson .null) 0).isOk = false := by decide
 /-- with a well-formed stack the two agree, as the theorem says -/
 example : (Go.validateFuel cexEnv 2 [0] (GoVal.ofJson .null) 0).isOk = true := by decide
+
+
+/-! ## definedness: the certificates on concrete environments -/
+
+example : ranked exEnv = true := by decide
+example : closed exEnv = true := by decide
+example : guarded exEnv = true := by decide
+example : ranked exEnv = true := (guarded_iff_ranked exEnv (by decide)).1 (by decide)
+example : maxRank exEnv = 1 := by decide
+example : Json.depth exBad = 1 := by decide
+/-- `C01_main_guarded` applied: fuel (1 + 1) * (1 + 1) = 4 decides, nothing about the Spec is assumed -/
+example : Go.validate exEnv [""] 4 0 (GoVal.ofJson exBad) = .ok () ∨ Go.validate exEnv [""] 4 0 (GoVal.ofJson exBad) = .err :=
+  (C01_main_guarded exEnv exEnv_wf exEnv_store (by decide) (by decide) 4 0 exBad (by decide) [""] _ rfl (by decide)
+    (by decide)).2.2
+
+/-- a linked list: `{"properties":{"next":{"$ref":"#"}},"required":["v"]}` — recursion through `properties`, which
+    descends into the instance: ranked (the only in-place edge is 1 → 0) -/
+def listEnv : VEnv :=
+  { st := #[{ properties := some [("next", 1)], required := some ["v"] }, { ref := "#" }], draft := .d2020,
+    infos := [(0, { base := some 0 }), (1, { path := "/properties/next", base := some 0, resolvedRef := some 0 })],
+    reMatch := fun _ _ => false, hash := fun _ => 0 }
+
+theorem listEnv_wf : EnvWF listEnv := EnvWF_of_checks listEnv (by decide) (by decide) (fun _ _ _ => rfl)
+theorem listEnv_store : StoreWF listEnv.st := StoreWF_of_check _ (by decide)
+
+def listGood : Json := .obj [("v", .null), ("next", .obj [("v", .null), ("next", .obj [("v", .null)])])]
+def listBad : Json := .obj [("v", .null), ("next", .obj [("v", .null), ("next", .obj [])])]
+/-- the chain ends in a scalar (`required` says nothing about a non-object) -/
+def listTight : Json := .obj [("v", .null), ("next", .obj [("v", .null), ("next", .obj [("next", .null), ("v", .null)])])]
+
+example : ranked listEnv = true := by decide
+example : closed listEnv = true := by decide
+example : rankOf listEnv 0 = 0 ∧ rankOf listEnv 1 = 1 ∧ maxRank listEnv = 1 := by decide
+example : Json.depth listGood = 3 ∧ Json.depth listTight = 3 := by decide
+/-- `spec_defined` instantiated: (3 + 1) * (1 + 1) = 8 -/
+example : (Spec.evalFuel (specEnvOf listEnv) 8 [] 0 listGood).isSome = true :=
+  spec_defined listEnv (by decide) (by decide) 8 [] 0 listGood (by decide) (by decide)
+/-- the sharp bound 3 * 2 + 0 + 1 = 7 is attained: each level of the instance costs two units (the schema and the
+    `$ref`), and 6 units do not decide `listTight` -/
+example : (Spec.evalFuel (specEnvOf listEnv) 7 [] 0 listTight).isSome = true :=
+  spec_defined_sharp listEnv (by decide) (by decide) 7 [] 0 listTight (by decide) (by decide)
+example : Spec.valid (specEnvOf listEnv) 7 0 listTight = some true := by decide
+example : Spec.valid (specEnvOf listEnv) 6 0 listTight = none := by decide
+/-- `C01_main_guarded` decides both ways -/
+example : Go.validate listEnv [""] 8 0 (GoVal.ofJson listGood) = .ok () :=
+  (C01_main_guarded listEnv listEnv_wf listEnv_store (by decide) (by decide) 8 0 listGood (by decide) [""] _ rfl
+    (by decide) (by decide)).1.2 (by decide)
+example : Go.validate listEnv [""] 8 0 (GoVal.ofJson listBad) = .err :=
+  (C01_main_guarded listEnv listEnv_wf listEnv_store (by decide) (by decide) 8 0 listBad (by decide) [""] _ rfl
+    (by decide) (by decide)).2.1.2 (by decide)
+
+/-- an in-place loop: `{"$ref":"#"}`.  Not ranked (nor guarded), and indeed the Spec never decides: the proviso is needed. -/
+def loopEnv : VEnv :=
+  { st := #[{ ref := "#" }], draft := .d2020, infos := [(0, { base := some 0, resolvedRef := some 0 })],
+    reMatch := fun _ _ => false, hash := fun _ => 0 }
+
+example : ranked loopEnv = false := by decide
+example : guarded loopEnv = false := by decide
+example : closed loopEnv = true := by decide
+example : Spec.evalFuel (specEnvOf loopEnv) 20 [] 0 .null = none := by decide
+example : (Go.validateFuel loopEnv 20 [] (GoVal.ofJson .null) 0).verdict = none := by decide
+/-- … with every fuel -/
+theorem loopEnv_undefined : ∀ fuel scope, Spec.evalFuel (specEnvOf loopEnv) fuel scope 0 .null = none
+  | 0, _ => rfl
+  | fuel + 1, scope => by
+    show Spec.evalStep (specEnvOf loopEnv) (Spec.evalFuel (specEnvOf loopEnv) fuel) scope 0 .null = none
+    apply Refine.evalStep_undefined (specEnvOf loopEnv) _ scope 0 .null { ref := "#" } rfl rfl
+    have h : Spec.kwRef (specEnvOf loopEnv) (Spec.evalFuel (specEnvOf loopEnv) fuel (scope ++ [0])) 0
+        { ref := "#" } .null = none := by
+      unfold Spec.kwRef Spec.inPlace
+      rw [if_pos (by decide)]
+      exact loopEnv_undefined fuel (scope ++ [0])
+    rw [h]
+    rfl
+
+/-- a missing `$ref` record: ranked but not closed, and the Spec is undefined whatever the fuel allows -/
+def danglingEnv : VEnv :=
+  { st := #[{ ref := "#/nowhere" }], draft := .d2020, infos := [(0, { base := some 0 })],
+    reMatch := fun _ _ => false, hash := fun _ => 0 }
+example : ranked danglingEnv = true := by decide
+example : closed danglingEnv = false := by decide
+example : Spec.evalFuel (specEnvOf danglingEnv) 20 [] 0 .null = none := by decide
 
 end JSV.C01
